@@ -89,7 +89,7 @@ func proxyService() ServiceSpec {
 }
 
 func scriptStatus(s PScript) error {
-	st := status.New(codes.Code(s.Code), "backend says no: 50% ünï")
+	st := status.New(codes.Code(s.Code), "backend says no: 50% ünï shelves%2Fscience 100%25 %zz")
 	if s.Det > 0 {
 		p := st.Proto()
 		for _, d := range detailsFor(s.Det) {
